@@ -10,13 +10,15 @@ _lib = {}
 
 def plan(tier, seed):
     shards = []
-    label_sets = ['collide_ints', 'collide_strs', 'letters']
+    label_sets = ['collide_ints', 'collide_strs', 'letters', 'hash_equal_ints']
     for ls in label_sets:
         # (i)+(ii): every dataset (canonical presentation) vs its re-presentations / permutations / near misses
         for m in ((1, 2) if tier == 'quick' else (1, 2, 3)):
             k = 1 if m == 1 else (8 if m == 2 else 64)
             for s in range(k):
                 shards.append({'kind': 'variants', 'labels': ls, 'n': 3, 'm': m, 'shard': s, 'nshards': k})
+        shards.append({'kind': 'history', 'labels': ls, 'n': 3, 'm': 2, 'shard': 0, 'nshards': 2})
+        shards.append({'kind': 'history', 'labels': ls, 'n': 3, 'm': 2, 'shard': 1, 'nshards': 2})
         # (iii) cross products
         k = 4
         for s in range(k):
@@ -62,7 +64,11 @@ def init_worker(cfg):
         'collide_ints': [0, 8, 16, 24],
         'collide_strs': colliding_strings(4),
         'letters': ['a', 'b', 'c', 'd'],
+        # ints whose FULL hashes are equal: hash(-1) == hash(-2) and hash(0) == hash(2**61 - 1)
+        'hash_equal_ints': [-1, -2, 0, 2 ** 61 - 1],
     }
+    if not (hash(-1) == hash(-2) and hash(0) == hash(2 ** 61 - 1)):
+        raise harness.HarnessError("this interpreter does not hash -1/-2 and 0/2**61-1 alike")
 
 
 def ordered_set(values):
@@ -207,6 +213,40 @@ def run_cross_canon(ctx, sh):
             compare(ctx, a, [tuple(tuple(reversed(bb)) for bb in r) for r in b], labels, sh['labels'])
 
 
+def run_history(ctx, sh):
+    """equality after in-place mutations: a dataset object that has already been compared is mutated
+    (remove_empty_rankings / remove_elements) and compared again with fresh datasets."""
+    from ..lib import mutation_histories, mutate_in_place
+    labels = _lib['labels'][sh['labels']]
+    n, m = sh['n'], sh['m']
+    for index, ds0 in spaces.ds_iter_strided(n, m, sh['shard'], sh['nshards']):
+        for what, after in mutation_histories(ds0):
+            a = build([tuple(r) for r in ds0], labels, 'mutated')
+            twin0 = build([tuple(r) for r in ds0], labels, 'twin')
+            ctx.evals += 4
+            try:
+                warm = (a == twin0, a == a, twin0 == a)
+                mutate_in_place(a, labels, what)
+                fresh_after = build([tuple(r) for r in after], labels, 'fresh')
+                got_after = (a == fresh_after, fresh_after == a)
+                got_before = (a == twin0, twin0 == a)
+            except Exception as e:
+                ctx.violation('eq-raises-after-mutation', {'cfg': {}, 'kind': 'history', 'labels': sh['labels'], 'a': list(ds0),
+                                                           'mutation': what}, None, None, exc=e)
+                continue
+            exp_before = structural([tuple(r) for r in after]) == structural([tuple(r) for r in ds0])
+            ctx.cases += 1
+            ctx.nontrivial += 1
+            case = {'cfg': {}, 'kind': 'history', 'labels': sh['labels'], 'a': list(ds0), 'mutation': what, 'n': n}
+            if warm != (True, True, True):
+                ctx.violation('eq-wrong', case, warm, True)
+            if got_after != (True, True):
+                ctx.violation('mutated-dataset-not-equal-to-its-fresh-equivalent', case, got_after, True)
+            if got_before != (exp_before, exp_before):
+                ctx.violation('mutated-dataset-still-compares-as-before-the-mutation', case, got_before, exp_before)
+            ctx.count('equality_histories')
+
+
 def run_typed(ctx):
     """int-like strings are normalised to ints by the constructor, so these contain the same rankings."""
     D = _lib['D']
@@ -222,7 +262,7 @@ def run_typed(ctx):
 
 def run_shard(sh):
     ctx = Ctx(ID)
-    {'variants': run_variants, 'cross_pres': run_cross_pres, 'cross_canon': run_cross_canon}.get(
+    {'variants': run_variants, 'cross_pres': run_cross_pres, 'cross_canon': run_cross_canon, 'history': run_history}.get(
         sh['kind'], lambda c, s: run_typed(c))(ctx, sh)
     return ctx.result()
 
@@ -230,6 +270,13 @@ def run_shard(sh):
 def replay(ctx, c):
     if c.get('kind') == 'typed':
         return run_typed(ctx)
+    if c.get('kind') == 'history':
+        swo = spaces.sub_weak_orders(c['n'])
+        ds0 = tuple(tuple(tuple(b) for b in r) for r in c['a'])
+        index = 0
+        for r in ds0:
+            index = index * len(swo) + swo.index(r)
+        return run_history(ctx, {'labels': c['labels'], 'n': c['n'], 'm': len(ds0), 'shard': index, 'nshards': len(swo) ** len(ds0)})
     labels = _lib['labels'][c['labels']]
     tt = lambda p: [tuple(tuple(b) for b in r) for r in p]
     compare(ctx, tt(c['a']), tt(c['b']), labels, c['labels'])
